@@ -4,6 +4,7 @@ import (
 	"fmt"
 	"os"
 	"path/filepath"
+	"strings"
 
 	"github.com/bufbuild/bufverif/internal/bufx"
 )
@@ -37,12 +38,18 @@ func (rn *runner) runCLIPhase(scratch string, all []worldItem) {
 		}
 		defer os.RemoveAll(dir)
 		sels := selections(w, it.cliMode, false)
+		control := map[string]map[string]bool{}
 		for _, sel := range sels {
-			rn.cliOne("cli", it.spec, specKey(it.spec), w, files, dir, sel, "binpb", directFor, cnt)
+			control[sel.String()] = rn.cliOne("cli", it.spec, specKey(it.spec), w, files, dir, sel, "binpb", directFor, cnt)
 		}
 		// output format dimension: the plain build of the workspace root once more in one of the text encodings (rotating),
 		// decoded with a resolver made from the bare compiler's descriptors
 		rn.cliOne("cli", it.spec, specKey(it.spec), w, files, dir, Selection{SubDir: "."}, textFormats[i%len(textFormats)], directFor, cnt)
+		// configuration dimension: the input directories once more with BUF_BETA_COPY_FILES_TO_MEMORY set (every file is read
+		// from an in-memory copy of the input bucket); the image must not change
+		for _, sel := range subDirSelections(w) {
+			rn.cliOneCfg("cli", it.spec, specKey(it.spec), w, files, dir, sel, "binpb", cliConfig{Mem: true}, control[sel.String()], directFor, cnt)
+		}
 	})
 }
 
@@ -67,19 +74,19 @@ func cliArgs(dir string, sel Selection, format string) []string {
 	return args
 }
 
-// cliPoint names the observation point of an output format in signatures ("cli" is the binary encoding).
-func cliPoint(format string) string {
-	if format == "binpb" {
-		return "cli"
-	}
-	return "cli-" + format
+// cliOne runs one selection of a world written to dir through `buf build` with one output format and judges the outcome.
+// It returns the kinds of violation found (signatures without the observation point).
+func (rn *runner) cliOne(phase string, spec *Spec, wkey string, w *World, files map[string]string, dir string, sel Selection, format string, directFor func([]string) *Direct, cnt counters) map[string]bool {
+	return rn.cliOneCfg(phase, spec, wkey, w, files, dir, sel, format, cliConfig{}, nil, directFor, cnt)
 }
 
-// cliOne runs one selection of a world written to dir through `buf build` with one output format and judges the outcome.
-func (rn *runner) cliOne(phase string, spec *Spec, wkey string, w *World, files map[string]string, dir string, sel Selection, format string, directFor func([]string) *Direct, cnt counters) {
+// cliOneCfg is cliOne under a configuration of the CLI (cliConfig). control holds the kinds of violation the same
+// selection showed in the default configuration: those are not reported again under the observation point of the
+// configuration (one defect, one signature; the configuration is only blamed for what it changes).
+func (rn *runner) cliOneCfg(phase string, spec *Spec, wkey string, w *World, files map[string]string, dir string, sel Selection, format string, cfg cliConfig, control map[string]bool, directFor func([]string) *Direct, cnt counters) map[string]bool {
 	r := rn.r
-	point := cliPoint(format)
-	res := bufx.RunCLI(rn.ctx, nil, "", cliArgs(dir, sel, format)...)
+	point := cfg.point(format)
+	res := bufx.RunCLI(rn.ctx, cfg.env(), "", append(cliArgs(dir, sel, format), cfg.args()...)...)
 	r.Eval(1)
 	cnt.add("cli_builds", 1)
 	mkCase := func() any {
@@ -87,7 +94,19 @@ func (rn *runner) cliOne(phase string, spec *Spec, wkey string, w *World, files 
 		if spec == nil {
 			c.Note = wkey
 		}
+		if cfg != (cliConfig{}) {
+			c.Config = &cfg
+		}
 		return c
+	}
+	kinds := map[string]bool{}
+	emit := func(kind, what string) {
+		kinds[kind] = true
+		if control[kind] {
+			cnt.add("cli_config_violation_also_in_default_configuration", 1)
+			return
+		}
+		report(r, []violation{{point + "/" + kind, what}}, mkCase())
 	}
 	targets := refTargets(w, sel)
 	if res.ExitCode != 0 {
@@ -97,20 +116,20 @@ func (rn *runner) cliOne(phase string, spec *Spec, wkey string, w *World, files 
 		case selectionMayBeRejected(w, sel):
 			cnt.add("cli_outcome_selection_rejected", 1)
 		default:
-			r.Violate(point+"/build/unexpected-exit", fmt.Sprintf("%s: reference targets %v compile directly, `buf build` exit %d stderr %q", sel, targets, res.ExitCode, res.Stderr), mkCase())
+			emit("build/unexpected-exit", fmt.Sprintf("%s: reference targets %v compile directly, `buf build` (%s) exit %d stderr %q", sel, targets, cfg, res.ExitCode, res.Stderr))
 		}
 		if len(res.Stdout) != 0 {
-			r.Violate(point+"/build/output-on-failure", fmt.Sprintf("%s: exit %d but %d bytes on stdout", sel, res.ExitCode, len(res.Stdout)), mkCase())
+			emit("build/output-on-failure", fmt.Sprintf("%s: exit %d but %d bytes on stdout", sel, res.ExitCode, len(res.Stdout)))
 		}
-		return
+		return kinds
 	}
 	if len(targets) == 0 {
-		r.Violate(point+"/build/image-without-targets", fmt.Sprintf("%s: nothing is targeted according to the reference model, `buf build` exit 0", sel), mkCase())
-		return
+		emit("build/image-without-targets", fmt.Sprintf("%s: nothing is targeted according to the reference model, `buf build` (%s) exit 0", sel, cfg))
+		return kinds
 	}
 	direct := directFor(targets)
 	if direct == nil {
-		return
+		return kinds
 	}
 	exp := &expectation{world: w, targets: targets, direct: direct}
 	var obs []obsFile
@@ -121,23 +140,32 @@ func (rn *runner) cliOne(phase string, spec *Spec, wkey string, w *World, files 
 		obs, exp.canon, err = observeText(format, []byte(res.Stdout), direct)
 	}
 	if err != nil {
-		r.Violate(point+"/build/undecodable-output", fmt.Sprintf("%s: %v", sel, err), mkCase())
-		return
+		emit("build/undecodable-output", fmt.Sprintf("%s: %v", sel, err))
+		return kinds
 	}
 	cnt.add("cli_images", 1)
 	if format != "binpb" {
 		cnt.add("cli_images_"+format, 1)
 	}
+	if cfg.Mem {
+		cnt.add("cli_images_copy_to_memory", 1)
+	}
 	vs := checkImage(point, exp, obs, cnt)
 	if sel.ProtoFile != "" {
 		vs = rn.protoFileAlternative(point, exp, sel, obs, vs, directFor, cnt)
 	}
-	report(r, vs, mkCase())
+	for _, v := range vs {
+		emit(strings.TrimPrefix(v.sig, point+"/"), v.what)
+	}
 	if len(obs) >= 2 {
 		key := phase + "|" + wkey + "|" + sel.String()
 		if format != "binpb" {
 			key += "|" + format
 		}
+		if cfg != (cliConfig{}) {
+			key += "|" + cfg.String()
+		}
 		r.Distinct(key)
 	}
+	return kinds
 }
